@@ -71,6 +71,8 @@ def dpq_unit(entry):
             x = c.real("p", lo=0.05, hi=0.95)
         elif dist in stubs.DISCRETE:
             x = c.intreal("x", lo=0, hi=15)
+            if dist == "binom":
+                c.assume(x <= args["size"])      # argument in the support (log-pmf is -inf outside it)
         elif dist == "uniform":
             x = args["min"] + c.real("ux", lo=0.1, hi=0.9) * (args["max"] - args["min"])
         elif dist == "beta":
